@@ -53,6 +53,7 @@ pub fn quiet_panics() {
 }
 
 pub mod crash;
+pub mod storm;
 
 /// FNV-1a 64 accumulator used for transcripts (cross-configuration equality checks).
 #[derive(Clone, Copy)]
